@@ -523,8 +523,9 @@ NON_TEST_FILES = None
 
 class Program:
     """All non-test python sources of the repository."""
-    def __init__(self, repo=DEFAULT_REPO):
+    def __init__(self, repo=DEFAULT_REPO, assume_added_asserts=False):
         self.repo = repo
+        self.assume_added_asserts = assume_added_asserts
         self.modules = {}
         rels = []
         for name in sorted(os.listdir(repo)):
@@ -539,6 +540,8 @@ class Program:
         for rel in rels:
             self.modules[rel] = Module(repo, rel)
         self.consulted = set()
+        self.consulted_funcs = set()
+        self.assert_changed = {}
         self._substitute_equivalent()
 
     def _substitute_equivalent(self):
@@ -550,7 +553,8 @@ class Program:
                    if m.ref_tree is not None]
         if not changed:
             return
-        from .canon import Oracle, equivalent
+        from .canon import (Oracle, equivalent, equivalent_modulo_asserts,
+                            assert_texts)
         trees = [m.tree for m in self.modules.values()] + [
             m.ref_tree for m in changed]
         oracle = Oracle(trees)
@@ -565,9 +569,32 @@ class Program:
                     continue
                 if ast.dump(ref) == ast.dump(node):
                     continue
-                if equivalent(ref, node, oracle):
+                cls_ = qual.split('.')[0] if '.' in qual else None
+                if equivalent(ref, node, oracle, cls_):
                     # positions keep the reference's relative order
                     self._replace(node, ref)
+                elif all(x in assert_texts(node)
+                         for x in assert_texts(ref)) and \
+                        equivalent_modulo_asserts(ref, node, oracle, cls_):
+                    # (only *added* assertions qualify: a removed or changed
+                    # assertion is left for the rules to see)
+                    # same function up to assertions: the rules run on the
+                    # reference shape, the changed assertions are an open
+                    # obligation of every check that consults the function
+                    a, b = assert_texts(ref), assert_texts(node)
+                    self.assert_changed[(m.rel, qual)] = (
+                        [x for x in b if x not in a],
+                        [x for x in a if x not in b])
+                    if not self.assume_added_asserts:
+                        continue
+                    self._replace(node, ref)
+                    m.normalised.setdefault(
+                        'equivalent_up_to_assertions', []).append(qual)
+                    redo = True
+                    continue
+                else:
+                    continue
+                if True:
                     m.normalised.setdefault(
                         'equivalent_to_reference', []).append(qual)
                     redo = True
@@ -645,6 +672,7 @@ class Program:
         if qualname not in m.funcs:
             raise AnalysisError('anchor function missing: %s:%s' %
                                 (rel, qualname))
+        self.consulted_funcs.add((rel, qualname))
         return m.funcs[qualname]
 
     def has_func(self, rel, qualname):
